@@ -1,4 +1,5 @@
 //! lrv-mac: monitors for the lorawan-device crate (C04-C12, C20).
+mod c04;
 mod c05;
 mod c06;
 mod c07;
@@ -12,5 +13,5 @@ mod regions;
 mod sim;
 
 fn main() {
-    lrv_core::runner::main(&[&c05::C05, &c06::C06, &c07::C07, &c08::C08, &c09::C09, &c10::C10, &c11::C11, &c12::C12]);
+    lrv_core::runner::main(&[&c04::C04, &c05::C05, &c06::C06, &c07::C07, &c08::C08, &c09::C09, &c10::C10, &c11::C11, &c12::C12]);
 }
